@@ -115,7 +115,7 @@ class Driver(object):
         _, exc = D.guarded(i, m)
         msgs = self.cap.take()
         if exc is not None:
-            ev.append({"st": "apply", "k": "raised", "exc": exc[0], "at": exc[1]})
+            ev.append({"st": "apply", "k": "raised", "exc": exc[0], "at": exc[1], "at0": exc[2]})
         else:
             missing = any(("not implemented" in t) or ("no uarch defined" in t) for _, t in msgs)
             ev.append({"st": "apply", "k": "logged" if missing else "updated"})
